@@ -139,6 +139,16 @@ CHECKS = {
                      "every public quantity; block-level linearity in each coefficient slot.",
                 note="differential oracle between two runs of the implementation; no reference values; numpy",
                 technique="explicit-state BFS over contraction rewrites with invariance-law oracle"),
+    "C18": dict(engine=E1, ref="5/C18",
+                text="Abstract bases (element sets x shell lists covering every letter s..k and SP x K x columns) are "
+                     "written by an independent writer to NWChem and Gaussian94 text in every combination of number "
+                     "style, preamble class (0, 1, 2, many lines), separator style and trailing END, parsed by the "
+                     "library and compared exactly with the abstract basis; make_contractions is explored as a call "
+                     "history on shared argument objects (BFS over call sequences, state = argument snapshot) with "
+                     "result and argument-intactness oracles; from_pyscf on a stand-in Mole.",
+                note="trusted base: the writer (mc/ref/writer.py); python float parsing; well-formedness assumptions "
+                     "listed in the evidence",
+                technique="exhaustive enumeration of file layouts against a writer model + explicit-state search over call histories"),
 }
 
 NOT_YET = {}
